@@ -30,6 +30,13 @@ COMMON_ASSUMPTIONS = [
 
 PROPS = {}
 
+# ---- per-loop unwinding bounds shared by several harnesses (see DESIGN.md section 12.8) ----
+_BITSET_SEQ = {"bit_set&7set_bit": 2, "bit_set&9clear_bit": 2}
+_ROBUST_SEQ = {"RobustUniqueIndexSet7acquire&.1": 2, "RobustUniqueIndexSet28increment_generation_counter": 2}
+_ROBUST_RACE = {"RobustUniqueIndexSet7acquire&.1": 2, "RobustUniqueIndexSet7acquire&.0": 3,
+                "RobustUniqueIndexSet7recover": 3, "RobustUniqueIndexSet28increment_generation_counter": 4}
+
+
 PROPS["C15"] = {
     "bounds": "segment <= 56 bytes at symbolic misalignment < 8/16; bucket layout size 1..=12, align 1/2/4/8 "
               "(size % align != 0 included); request size 0..=13/20, align <= 16; histories of 3-4 symbolic "
@@ -250,8 +257,11 @@ for (n, ty, k) in [("index_queue", "FixedSizeIndexQueue<2>", 3), ("overflow_queu
                    ("string", "StaticString<3>", 3), ("slot_map", "FixedSizeSlotMap<u8,2>", 3),
                    ("flat_map", "FixedSizeFlatMap<u8,u8,2>", 3)]:
     heavy = n in ("slot_map", "flat_map")
-    _c14.append(H("c14::c14_" + n, covers=1, timeout=7200 if heavy else 1800,
-                  mem_gb=30 if heavy else (14 if n in ("robust_index_set", "container", "bit_set", "unique_index_set") else 8),
+    _uw = {"bit_set": _BITSET_SEQ, "robust_index_set": _ROBUST_SEQ,
+           "container": dict(_ROBUST_SEQ, **{"bump_allocator&8allocate": 2}),
+           "slot_map": {"next_available_key_after": 3}, "flat_map": {"next_available_key_after": 3}}.get(n)
+    _c14.append(H("c14::c14_" + n, covers=1, unwindset=_uw, timeout=7200 if heavy else 2400,
+                  mem_gb=30 if heavy else (18 if n in ("robust_index_set", "container", "bit_set") else 8),
                   tiers=("thorough",) if heavy else ("quick", "thorough"),
                   what="%s: %d symbolic operations, byte-copy to a fresh block at a symbolic point of the history "
                        "(old block scribbled and freed), lock-step comparison with a twin that stayed" % (ty, k),
@@ -276,9 +286,6 @@ PROPS["C14"] = {
 # race acquire only runs as an uninterrupted inner operation (bound 2 as well).  Recovery race, capacity 2: scans need
 # 3 unwindings; the generation-counter CAS of the preempted recovery can fail once per inner operation (budget 2):
 # bound 4.  Unwinding assertions stay on for every one of these loops.
-_ROBUST_SEQ = {"RobustUniqueIndexSet7acquire&.1": 2, "RobustUniqueIndexSet28increment_generation_counter": 2}
-_ROBUST_RACE = {"RobustUniqueIndexSet7acquire&.1": 2, "RobustUniqueIndexSet7acquire&.0": 3,
-                "RobustUniqueIndexSet7recover": 3, "RobustUniqueIndexSet28increment_generation_counter": 4}
 PROPS["C09"] = {
     "bounds": "capacities 1..=4, sequential histories of 4-6 symbolic acquire/release(lock-if-last) operations; robust "
               "set with 2 owners incl. recover; schedules: outer thread preempted before any shared-memory operation, "
@@ -583,7 +590,6 @@ PROPS["C11"] = {
 }
 # without preemption a compare-exchange that follows its load cannot fail: the retry loops of the bit set get their
 # own bound (the unwinding assertion of each loop stays on)
-_BITSET_SEQ = {"bit_set&7set_bit": 2, "bit_set&9clear_bit": 2}
 PROPS["C05"] = {
     "bounds": "bit sets: capacity 10 (crossing the 8-bit element), 4-5 symbolic operations; hand-shake: ids <= 3, 3 "
               "symbolic notify/try_wait/blocking_wait steps; schedule: listener preempted at every shared-memory "
